@@ -99,6 +99,7 @@ fn dispatch(id: &str, ctx: &Ctx, rep: &Report) -> bool {
         "C10" => c10::run(ctx, rep),
         "C11" => c11::run(ctx, rep),
         "C12" => c12::run(ctx, rep),
+        "C07" => c12::run_c07(ctx, rep),
         "C16" => c16::run(ctx, rep),
         "C17" => c17::run(ctx, rep),
         _ => {
@@ -114,6 +115,7 @@ fn dispatch_replay(id: &str, w: &serde_json::Value, rep: &Report) -> bool {
         "C10" => c10::replay(w, rep),
         "C11" => c11::replay(w, rep),
         "C12" => c12::replay(w, rep),
+        "C07" => c12::replay_c07(w, rep),
         "C16" => c16::replay(w, rep),
         "C17" => c17::replay(w, rep),
         _ => {
